@@ -18,7 +18,7 @@ RULE = ('payloads of 0-40 characters (ASCII, 2/3/4-byte UTF-8, \\n, \\r\\n, NUL-
         'distinct = distinct (payload, options, operation prefix); non-trivial = all')
 PARAMS = {'quick': {'n': 300}, 'thorough': {'n': 20000}}
 MIN_EVAL = {'quick': 60000, 'thorough': 4000000}
-STRATA = ['write-readback', 'op-start', 'op-middle', 'op-before-last', 'op-at-end', 'op-past-end', 'peek', 'set_stream_position', 'wrong-type-op',
+STRATA = ['large-payload', 'write-readback', 'op-start', 'op-middle', 'op-before-last', 'op-at-end', 'op-past-end', 'peek', 'set_stream_position', 'wrong-type-op',
           'read_term', 'binary', 'eof_action-error', 'eof_action-eof_code', 'eof_action-reset']
 ASSUMPTIONS = ['position(position_and_lines_read(P, L)): P = bytes consumed, L = newline characters consumed',
                'end_of_stream is at as soon as the last byte has been consumed (file streams know their length), past after an end-of-file read',
@@ -139,11 +139,20 @@ def shard(ctx):
     w.setup([{'op': 'raw', 'query': setup_q}])
     fpath = ctx.scratch_dir() + '/c19-%d.dat' % ctx.shard
     for h in range(ctx.params['n']):
-        mode = rng.choice(['chars', 'chars', 'terms', 'binary'])
+        mode = rng.choice(['chars', 'chars', 'terms', 'binary']) if h % 12 else 'large'
         binary = mode == 'binary'
         jobs = [{'op': 'raw', 'query': setup_q}]
         # ---- write phase
-        if mode == 'terms':
+        if mode == 'large':
+            # a multi-byte character straddling a multiple of 8192 bytes (the reader's buffer size), written by the harness
+            k = rng.choice([8189, 8190, 8191, 8192, 16381, 16382, 16383, 24575])
+            text = 'a' * k + rng.choice(['é', '日', '\U0001F600', 'é日\U0001F600']) + ''.join(rng.choice(['b', '\n', 'ß']) for _ in range(rng.randint(0, 20)))
+            data = text.encode()
+            with open(fpath, 'wb') as f:
+                f.write(data)
+            ok = True
+            large_skip = k - rng.choice([0, 1, 2, 5])
+        elif mode == 'terms':
             text = gen_term_payload(rng)
             data = text.encode()
             wgoals = ['write(S, %s)' % quote_atom(text)] if False else None
@@ -188,11 +197,16 @@ def shard(ctx):
         broken = False
         nops = rng.randint(8, 40)
         for step in range(nops):
-            op = choose_op(rng, sh, mode, saved)
+            if mode == 'large' and step == 0:
+                op = op_get_n_chars(large_skip)      # jump close to the buffer boundary first
+            else:
+                op = choose_op(rng, sh, mode, saved)
             st = pos_class(sh)
             o, g = run_op(w, op['goal'])
             jobs.append({'op': 'run', 'goal': g + ' .', 'limit': 2, 'pred': 'runr'})
             rec.case(op.get('stratum') or st, (data, tuple(opts), len(jobs), op['goal']))
+            if mode == 'large':
+                rec.case('large-payload', (len(data), op['goal'], sh.pos))
             if eof_action and sh.past:
                 rec.case('eof_action-' + eof_action, (data, op['goal']))
             if binary:
